@@ -99,7 +99,9 @@ def _case_line(i, c):
 
 
 def _run_harness(exe, jobs, what):
-    res = hrun.run_many(exe, jobs, timeout=1500, workers=WORKERS)
+    # no stack traces for UBSan reports: on the pinned tree every 1-based case dies in a child, and symbolising thousands of
+    # reports dominates the run time; file:line of the report is kept
+    res = hrun.run_many(exe, jobs, timeout=1500, workers=WORKERS, env={"UBSAN_OPTIONS": "print_stacktrace=0:halt_on_error=1:exitcode=98"})
     events, errs = [], []
     for j, h in zip(jobs, res):
         ev = hrun.read_ndjson(j[0])
